@@ -52,6 +52,10 @@ fn layers(dup: bool) -> (Layers, Vec<LayerKey>) {
         let mut layer = Layer::new(num, LAYER_NAMES[i])
             .add_pairs(&[(0, LayerPurpose::Drawing), (1, LayerPurpose::Pin), (2, LayerPurpose::Label), (3, LayerPurpose::Obstruction)])
             .expect("MACHINERY: layer pairs");
+        if dup {
+            // ... and every layer defines an outline purpose: nothing may depend on which of them a map yields first
+            layer = layer.add_pairs(&[(6, LayerPurpose::Outline)]).expect("MACHINERY: layer pairs");
+        }
         if dup && i != 1 {
             // the same purposes under a second number each (the later number is the one a purpose exports to)
             layer = layer.add_pairs(&[(44, LayerPurpose::Drawing), (45, LayerPurpose::Pin), (47, LayerPurpose::Obstruction)]).expect("MACHINERY: layer pairs");
@@ -360,6 +364,12 @@ pub fn convert_once(case: &Case) -> Result<(Vec<(String, Vec<i16>)>, String), St
                 if case.two_ports {
                     structs.push(mk("dup_e", 5, &["dup_b", "dup_d"]));
                 }
+                if case.two_shapes {
+                    // a reference that names no struct exactly but two of them up to letter case
+                    structs.push(mk("inv", 6, &[]));
+                    structs.push(mk("Inv", 7, &[]));
+                    structs.push(mk("user", 8, &["INV"]));
+                }
                 if case.two_cells {
                     structs.reverse();
                 }
@@ -573,10 +583,15 @@ pub fn convert_once(case: &Case) -> Result<(Vec<(String, Vec<i16>)>, String), St
                 insts: match (case.two_ports, case.two_cells) {
                     (false, _) => vec![],
                     (true, true) => vec![InstIn { child: 0, loc: (4, 0), rh: false, rv: false }],
-                    (true, false) => vec![InstIn { child: 0, loc: (4, 0), rh: false, rv: false }, InstIn { child: 0, loc: (2, 0), rh: false, rv: false }],
+                    // (the two abutting instances are of cells with different metal counts where the stack is high enough)
+                    (true, false) => vec![InstIn { child: 0, loc: (4, 0), rh: false, rv: false }, InstIn { child: if fam[si].layers.len() >= 3 { 1 } else { 0 }, loc: (2, 0), rh: false, rv: false }],
                 },
             };
-            let cd = CaseD { stack: si, cell, children: vec![ChildD { metals: 1, size: (2, 6) }] };
+            let mut cell = cell;
+            if fam[si].layers.len() >= 3 {
+                cell.metals = 3;
+            }
+            let cd = CaseD { stack: si, cell, children: vec![ChildD { metals: 1, size: (2, 6) }, ChildD { metals: 2, size: (2, 6) }] };
             let a = match run_convert(&fam[si], &cd)? {
                 Ok(cells) => format!("{cells:?}"),
                 Err(e) => return Err(format!("tetris->raw conversion failed on a well-formed cell: {e}")),
@@ -844,7 +859,7 @@ impl CaseDriver for C20 {
     }
     fn describe(&self, _tier: Tier) -> Describe {
         Describe {
-            rule: "inputs: raw libraries with 1-2 abstract cells whose 1-2 ports carry shapes on 1-3 layers and whose blockages sit on 0/2/3 layers (unordered maps with 1-3 keys, every insertion order), 1-2 shapes per layer, plus a layout cell with elements on 3 layers x 2 purposes, an annotation and a reflected+rotated instance; LEF / protobuf / GDSII inputs derived from them in a fixed order. Conversions: raw->GDSII (bytes, dates pinned), raw->protobuf (prost bytes), raw->LEF (serde_json), LEF->raw->LEF, protobuf->raw->protobuf, GDSII->raw, raw->GDSII->raw, LEF text (no VERSION / 5.8 / 5.4, with or without END LIBRARY, with or without statements only versions <= 5.4 allow; a reader error is a result like any other)->raw->LEF, gridded layout->raw (raw results as an order-preserving dump; the gridded cell optionally holds two instances abutting along the tracks; a parent-first library whose top cell also holds five array instances; and a cell with two port-relative net assignments on instances whose heap addresses swap between rebuilds), and two conversions whose result is an error - GDSII->raw on struct rings of 2..4 closed by SREF / AREF (optionally a second ring, either listing order) or on four to six structs one of whose names is defined twice, raw->protobuf on cell rings, raw->GDSII / raw->protobuf of an element whose layer does not define its purpose, raw->protobuf of an unnamed instance rotated by 22.5 degrees, LEF->raw->LEF with a supplied layer that has no name of its own and is indexed under 2..3 names the LEF uses, and gridded layout->raw of a cut lying under an instance / of two overlapping cuts - where the rendered error is the compared output. Configurations: every input is rebuilt / re-imported with fresh HashMaps until each of the k! iteration orders of every map the exporter walks has been observed on the very map objects (minimum 32, cap 4096 rebuilds; coverage measured and reported as tags), plus fresh OS processes, plus the same input once more after each of three *other* inputs went through the same conversion in the same process (no state carried from one library to the next); conversions that expose no map (GDSII->raw) are repeated 32 times - unordered containers internal to a converter cannot be enumerated, only exercised. Two of the three layers may share a layer number, and then the other layers also define each purpose under two numbers. A state is (input, conversion); non-trivial = some map has >= 2 keys.".into(),
+            rule: "inputs: raw libraries with 1-2 abstract cells whose 1-2 ports carry shapes on 1-3 layers and whose blockages sit on 0/2/3 layers (unordered maps with 1-3 keys, every insertion order), 1-2 shapes per layer, plus a layout cell with elements on 3 layers x 2 purposes, an annotation and a reflected+rotated instance; LEF / protobuf / GDSII inputs derived from them in a fixed order. Conversions: raw->GDSII (bytes, dates pinned), raw->protobuf (prost bytes), raw->LEF (serde_json), LEF->raw->LEF, protobuf->raw->protobuf, GDSII->raw, raw->GDSII->raw, LEF text (no VERSION / 5.8 / 5.4, with or without END LIBRARY, with or without statements only versions <= 5.4 allow; a reader error is a result like any other)->raw->LEF, gridded layout->raw (raw results as an order-preserving dump; the gridded cell optionally holds two instances abutting along the tracks; a parent-first library whose top cell also holds five array instances; and a cell with two port-relative net assignments on instances whose heap addresses swap between rebuilds), and two conversions whose result is an error - GDSII->raw on struct rings of 2..4 closed by SREF / AREF (optionally a second ring, either listing order) or on four to nine structs one of whose names is defined twice (optionally with a reference that matches two structs only up to letter case), raw->protobuf on cell rings, raw->GDSII / raw->protobuf of an element whose layer does not define its purpose, raw->protobuf of an unnamed instance rotated by 22.5 degrees, LEF->raw->LEF with a supplied layer that has no name of its own and is indexed under 2..3 names the LEF uses, and gridded layout->raw of a cut lying under an instance / of two overlapping cuts - where the rendered error is the compared output. Configurations: every input is rebuilt / re-imported with fresh HashMaps until each of the k! iteration orders of every map the exporter walks has been observed on the very map objects (minimum 32, cap 4096 rebuilds; coverage measured and reported as tags), plus fresh OS processes, plus the same input once more after each of three *other* inputs went through the same conversion in the same process (no state carried from one library to the next); conversions that expose no map (GDSII->raw) are repeated 32 times - unordered containers internal to a converter cannot be enumerated, only exercised. Two of the three layers may share a layer number, and then the other layers also define each purpose under two numbers and every layer defines an outline purpose. A state is (input, conversion); non-trivial = some map has >= 2 keys.".into(),
             assumptions: vec!["an unordered map in the raw data model itself is rendered sorted (a map has no order); every ordered container must keep its order".into()],
             excluded: vec!["gridded layout -> raw is exercised on three stacks x a few cells only (the C08 alphabet is not re-enumerated here)".into()],
             technique: "exhaustive enumeration of hash-map iteration orders (observed on the real map objects) x inputs x conversions; outputs compared byte-for-byte within and across processes".into(),
